@@ -1,0 +1,118 @@
+//go:build verif
+
+// Contracts for package dag, checked by /verif/govc (comment-only; not part of any normal build).
+
+package dag
+
+// Accessors of a parsed (immutable) transaction; reading a transaction from a read transaction of
+// the KV store. ASSUMED (trusted): results are functions of their arguments.
+//@ func (Transaction).*
+//@   trusted
+//@   pure
+//@ func getTransaction
+//@   trusted
+//@   pure
+
+// ---- C06 / C17: parsing a transaction ----
+
+//@ func ParseTransaction
+//@   prop C06 C17
+//@   loop 1 unroll 9
+//@   call step #1 requires [the-nine-steps-in-order] arg(0) == result && arg(1) == headers && arg(2) == message
+//@        && headers == ret(call (jws.Signature).ProtectedHeaders #1)
+//@        && ($iter1 == 0 ==> step == parseSigningAlgorithm) && ($iter1 == 1 ==> step == parsePayload)
+//@        && ($iter1 == 2 ==> step == parseContentType) && ($iter1 == 3 ==> step == parseSignatureParams)
+//@        && ($iter1 == 4 ==> step == parseSigningTime) && ($iter1 == 5 ==> step == parseVersion)
+//@        && ($iter1 == 6 ==> step == parsePrevious) && ($iter1 == 7 ==> step == parsePAL)
+//@        && ($iter1 == 8 ==> step == parseLamportClock)
+//@   ensures [parsed-with-exactly-one-signature] isNilIface(result.1) ==> isNilIface(ret(call jws.Parse #1).1) && arg(call jws.Parse #1, 0) == input
+//@        && len(ret(call (jws.Message).Signatures #1)) == 1
+//@   ensures [all-nine-steps-passed] isNilIface(result.1) ==> $iter1 == 9
+//@   ensures [error-iff-no-transaction] isNilIface(result.1) <==> !isNilIface(result.0)
+
+//@ func isAlgoAllowed
+//@   prop C06 C17
+//@   pure
+//@   loop 1 invariant forall k int :: 0 <= k && k < $i ==> allowedAlgos[k] != algo
+//@   ensures [member-of-allow-list] result <==> exists k int :: 0 <= k && k < len(allowedAlgos) && allowedAlgos[k] == algo
+
+// The allow-list is exactly the six asymmetric algorithms of RFC004 (no "none", no HMAC, no RS*).
+//@ func init
+//@   prop C06 C17
+//@   call store.allowedAlgos #1 requires [asymmetric-only] len(arg(1)) == 6
+//@        && arg(1)[0] == jwa.ES256 && arg(1)[1] == jwa.ES384 && arg(1)[2] == jwa.ES512
+//@        && arg(1)[3] == jwa.PS256 && arg(1)[4] == jwa.PS384 && arg(1)[5] == jwa.PS512
+
+//@ func parseSigningAlgorithm
+//@   prop C06 C17
+//@   ensures [algorithm-allowed] isNilIface(result) ==> isAlgoAllowed(headers.Algorithm())
+
+//@ func parsePayload
+//@   prop C06
+//@   ensures [payload-hash-from-body] isNilIface(result) ==> isNilIface(ret(call hash.ParseHex #1).1)
+//@        && same(transaction.payload, ret(call hash.ParseHex #1).0)
+
+//@ func parseContentType
+//@   prop C06
+//@   ensures [content-type-valid] isNilIface(result) ==> ValidatePayloadType(headers.ContentType()) && transaction.payloadType == headers.ContentType()
+
+//@ func ValidatePayloadType
+//@   pure
+
+//@ func parseSignatureParams
+//@   prop C06 C17
+//@   ensures [exactly-one-of-jwk-and-kid] isNilIface(result) ==> (isNilIface(transaction.signingKey) != (transaction.signingKeyID == ""))
+//@   ensures [algorithm-recorded] isNilIface(result) ==> transaction.signingAlgorithm == headers.Algorithm()
+
+//@ func parseSigningTime
+//@   prop C06
+//@   ensures [header-present-and-number] isNilIface(result) ==> headers.Get(signingTimeHeader).1 && typeOf(headers.Get(signingTimeHeader).0) == float64
+
+//@ func parseVersion
+//@   prop C06
+//@   ensures [header-present-and-number] isNilIface(result) ==> headers.Get(versionHeader).1 && typeOf(headers.Get(versionHeader).0) == float64
+//@   ensures [version-allowed] isNilIface(result) ==> versionAllowed(transaction.version)
+
+//@ func versionAllowed
+//@   pure
+
+//@ func parseLamportClock
+//@   prop C06
+//@   ensures [header-present-and-number] isNilIface(result) ==> headers.Get(lamportClockHeader).1 && typeOf(headers.Get(lamportClockHeader).0) == float64
+
+// ---- C06 / C17: verifying a transaction ----
+
+//@ func NewTransactionSignatureVerifier$1
+//@   prop C06 C17
+//@   call jws.Verify #1 requires [signature-over-the-received-bytes-with-the-right-key]
+//@        arg(0) == transaction.Data() && len(arg(1)) == 1 && arg(1)[0] == ret(call jws.WithKey #1)
+//@     && arg(call jws.WithKey #1, 0) == jwa.KeyAlgorithm(jwa.SignatureAlgorithm(transaction.SigningAlgorithm()))
+//@     && arg(call jws.WithKey #1, 1) == signingKey
+//@     && ( !isNilIface(transaction.SigningKey())
+//@          ==> did(call (jwk.Key).Raw #1) && isNilIface(ret(call (jwk.Key).Raw #1)) && arg(call (jwk.Key).Raw #1, 0) == transaction.SigningKey() )
+//@     && ( isNilIface(transaction.SigningKey())
+//@          ==> did(call (resolver.NutsKeyResolver).ResolvePublicKey #1) && isNilIface(ret(call (resolver.NutsKeyResolver).ResolvePublicKey #1).1)
+//@              && signingKey == ret(call (resolver.NutsKeyResolver).ResolvePublicKey #1).0
+//@              && arg(call (resolver.NutsKeyResolver).ResolvePublicKey #1, 1) == transaction.SigningKeyID()
+//@              && arg(call (resolver.NutsKeyResolver).ResolvePublicKey #1, 2) == transaction.Previous() )
+//@   ensures [success-only-if-verified] isNilIface(result) ==> did(call jws.Verify #1) && isNilIface(ret(call jws.Verify #1).1)
+
+// Every previous transaction is present and the Lamport clock is one more than the highest clock
+// among them (0 for a root transaction).
+//@ func NewPrevTransactionsVerifier$1
+//@   prop C06
+//@   ints math
+//@   loop 1 invariant highestLamportClock >= -1
+//@   loop 1 invariant forall k int :: 0 <= k && k < $i ==> isNilIface(getTransaction(transaction.Previous()[k], tx).1)
+//@          && int(getTransaction(transaction.Previous()[k], tx).0.Clock()) <= highestLamportClock
+//@   loop 1 invariant highestLamportClock == -1 ==> $i == 0
+//@   loop 1 invariant highestLamportClock != -1 ==> exists k int :: 0 <= k && k < $i && int(getTransaction(transaction.Previous()[k], tx).0.Clock()) == highestLamportClock
+//@   ensures [all-previous-present] isNilIface(result) ==> forall k int :: 0 <= k && k < len(transaction.Previous()) ==> isNilIface(getTransaction(transaction.Previous()[k], tx).1)
+//@   ensures [clock-above-every-previous] isNilIface(result) ==> forall k int :: 0 <= k && k < len(transaction.Previous()) ==> int(getTransaction(transaction.Previous()[k], tx).0.Clock()) < int(transaction.Clock())
+//@   ensures [root-has-clock-zero] isNilIface(result) && len(transaction.Previous()) == 0 ==> int(transaction.Clock()) == 0
+//@   ensures [clock-is-successor-of-some-previous] isNilIface(result) && len(transaction.Previous()) > 0 ==> exists k int :: 0 <= k && k < len(transaction.Previous()) && int(getTransaction(transaction.Previous()[k], tx).0.Clock()) + 1 == int(transaction.Clock())
+
+//@ func transactionValidationError
+//@   prop C06
+//@   modifies nothing
+//@   ensures !isNilIface(result)
